@@ -26,6 +26,40 @@ def main(args):
             return 1
         print("replayed case is accepted by the specification now")
         return 0
+    if kind in ("fault", "crash-image", "panic", "seglog-trace", "hang") and payload.get("script"):
+        from . import sync, seglog
+        sc = payload["script"]
+        prop = payload.get("property")
+        is_crash_script = "crash_mode" in sc or "fault" in sc
+        if is_crash_script:
+            if sc.get("fault"):
+                os.environ["NVH_WATCHDOG"] = "25"
+            runs, events, hangs = sync.run_crash([sc], "replaycmd")
+        else:
+            runs, hangs = api.replay([sc], "replaycmd")
+            events = []
+        bad = []
+        if hangs:
+            bad.append("call did not return: %s" % hangs[0][:200])
+        for rec in C.take_panics(runs):
+            bad.append("store panicked: %s" % str(rec.get("msg"))[:300])
+        consts = api.gen_constants(maxlog=sc["cfg"]["max_rollback_log_len"], rollback=sc["cfg"]["rollback"],
+                                   nkeys=len(sc["conc"]["keys"]), nvals=len(sc["conc"]["vals"]))
+        acc, rej = api.validate_runs(sorted(runs), runs, consts, "replaycmd")
+        for r in rej:
+            bad.append("record not allowed by the specification: %s" % json.dumps(r["record"])[:600])
+        if kind == "seglog-trace" and events:
+            tr = seglog.build_traces(events, [sc])
+            _, srej = seglog.validate(tr, [sc], "replaycmd")
+            for r in srej:
+                bad.append("rollback-log operation not allowed by Seglog: %s" % json.dumps(r["record"]))
+        if bad:
+            for b in bad[:5]:
+                print(b)
+            print("VIOLATION property=%s replay=%s" % (prop, args[0]))
+            return 1
+        print("replayed case is accepted by the specification now")
+        return 0
     if kind == "tlc-counterexample":
         print(payload.get("output", "")[-8000:])
         return 1
